@@ -21,10 +21,12 @@ RULE = (
     "ranks), then EVERY single fault at EVERY message: drop the send (holder "
     "replaced by its pass-through), drop the receive (replaced by an input), "
     "duplicate the send (second holder, same destination and tag, other "
-    "payload), duplicate the receive (second, differently tagged receive node "
+    "payload - once unrelated, once computed from the value of the first "
+    "holder), duplicate the receive (second, differently tagged receive node "
     "with the same source and tag), retag the send / the receive to a fresh "
     "tag and to every other tag used between the same pair, redirect the "
-    "send / the receive to every third rank, self-send, self-receive, and a "
+    "send / the receive to every third rank and to a rank that does not "
+    "exist, self-send, self-receive, and a "
     "dependency closing a cross-rank cycle (the payload is made to depend on "
     "a receive of its own rank that transitively depends on this message; if "
     "none exists a return message forwarding the payload is added first); "
@@ -151,8 +153,8 @@ def apply_fault(case, f: dict) -> dict | None:
     src, dst, tag = f["src"], f["dst"], f["tag"]
     out = copy.deepcopy(case)
     n = out["nranks"]
-    if kind in ("drop-send", "dup-send", "retag-send", "redirect-send",
-                "self-send", "cycle"):
+    if kind in ("drop-send", "dup-send", "dup-send-nested", "retag-send",
+                "redirect-send", "self-send", "cycle"):
         h = find_hold(out, src, dst, tag)
         if h is None:
             return None
@@ -163,7 +165,8 @@ def apply_fault(case, f: dict) -> dict | None:
         elif kind == "retag-send":
             node["p"]["tag"] = f["to"]
         elif kind == "redirect-send":
-            if not (0 <= f["to_rank"] < n) or f["to_rank"] in (src, dst):
+            # (to_rank == n: a rank that does not exist)
+            if not (0 <= f["to_rank"] <= n) or f["to_rank"] in (src, dst):
                 return None
             node["p"]["dest"] = f["to_rank"]
         elif kind == "self-send":
@@ -179,6 +182,22 @@ def apply_fault(case, f: dict) -> dict | None:
                                "p": {"dest": dst, "tag": copy.deepcopy(
                                    node["p"]["tag"])}})
             s["outputs"][0] = [k, len(s["nodes"]) - 1]
+        elif kind == "dup-send-nested":
+            # the duplicate's payload is computed from the *holder* of the
+            # original: where(any(h > 0), x, x) has x's shape and dtype
+            x = node["args"][0][1]
+            nodes = s["nodes"]
+            nodes.append({"op": "greater", "args": [["n", h], ["py", 0]]})
+            nodes.append({"op": "any", "args": [["n", len(nodes) - 1]],
+                          "p": {"axis": None}})
+            nodes.append({"op": "where", "args": [["n", len(nodes) - 1],
+                                                  ["n", x], ["n", x]]})
+            d = len(nodes) - 1
+            k, o = s["outputs"][0]
+            nodes.append({"op": "sendhold", "args": [["n", d], ["n", o]],
+                          "p": {"dest": dst, "tag": copy.deepcopy(
+                              node["p"]["tag"])}})
+            s["outputs"][0] = [k, len(nodes) - 1]
         elif kind == "cycle":
             out = _close_cycle(out, f)
             if out is None:
@@ -196,7 +215,7 @@ def apply_fault(case, f: dict) -> dict | None:
         elif kind == "retag-recv":
             node["p"]["tag"] = f["to"]
         elif kind == "redirect-recv":
-            if not (0 <= f["to_rank"] < n) or f["to_rank"] in (src, dst):
+            if not (0 <= f["to_rank"] <= n) or f["to_rank"] in (src, dst):
                 return None
             node["p"]["src"] = f["to_rank"]
         elif kind == "self-recv":
@@ -295,8 +314,8 @@ def single_faults(case) -> list[dict]:
     n = case["nranks"]
     for m in ms:
         key = {"src": m["src"], "dst": m["dst"], "tag": m["tag"]}
-        for kind in ("drop-send", "drop-recv", "dup-send", "dup-recv",
-                     "self-send", "self-recv", "cycle"):
+        for kind in ("drop-send", "drop-recv", "dup-send", "dup-send-nested",
+                     "dup-recv", "self-send", "self-recv", "cycle"):
             out.append({"kind": kind, **key})
         ft = fresh_tag(case)
         out.append({"kind": "retag-send", **key, "to": ft})
@@ -305,7 +324,7 @@ def single_faults(case) -> list[dict]:
             if m2 is not m and (m2["src"], m2["dst"]) == (m["src"], m["dst"]):
                 out.append({"kind": "retag-send", **key, "to": m2["tag"]})
                 out.append({"kind": "retag-recv", **key, "to": m2["tag"]})
-        for c in range(n):
+        for c in range(n + 1):
             if c not in (m["src"], m["dst"]):
                 out.append({"kind": "redirect-send", **key, "to_rank": c})
                 out.append({"kind": "redirect-recv", **key, "to_rank": c})
@@ -413,9 +432,7 @@ def case_oracle(c10case, *, exec_leaves: int = 60):
             info["skip"] = "no verdict: " + (
                 "send/receive shapes or dtypes differ" if any(
                     "mismatch" in r for r in cl["reasons"]) else
-                "one send held by several holders" if any(
-                    "holders" in r for r in cl["reasons"]) else
-                "nonexistent rank")
+                "one send held by several holders")
             return None, info
         if not faults and not cl["valid"]:
             raise HarnessError("generator produced an ill-formed program: "
@@ -577,5 +594,11 @@ def _holder_leak_pred(c10case, failure) -> bool:
     return case is not None and distsim.holder_payload_dep_leak(case)
 
 
+def _nested_dup_pred(c10case, failure) -> bool:
+    case = apply_faults(c10case["base"], c10case.get("faults") or [])
+    return case is not None and distsim.nested_duplicate_send(case)
+
+
 KNOWN_PREDICATES = {"forward_bare_recv": _forward_pred,
-                    "holder_payload_dep_leak": _holder_leak_pred}
+                    "holder_payload_dep_leak": _holder_leak_pred,
+                    "nested_duplicate_send": _nested_dup_pred}
